@@ -1,10 +1,241 @@
-import AcraModel.Basic.Bytes
-/-! Driver ops for C04. -/
+import AcraModel.Proxy.Session
+import AcraModel.Crypto.Shim
+import Driver.C01
+/-!
+Driver ops for C04 (the SQL proxy). Token formats (no spaces inside a token):
+
+* schema  : tables joined by `/`; table = `name:cols:enc`; cols = `a,b,c` or `_`; enc = `col=kind.dtype.reenc` joined by `+`, or `_`
+            (kind = struct|block, dtype = none|bytes|str, reenc = 0|1)
+* cell    : `L<hex>` string literal, `N<hex>` number, `P<n>` placeholder, `Z` NULL, `O<n>` other
+* targets : `*`, `q.*`, `c`, `q.c`, `?` joined by `,`; `_` = none
+* stmt    : `I:table:cols:rows:returning` (rows joined by `;`, cells by `,`) | `U:table:alias:sets:returning`
+            (sets = `col=cell` joined by `,`) | `S:table:alias:items` | `X`
+* params  : `t<hex>` / `b<hex>` text / binary value, `tZ` / `bZ` NULL, joined by `,`; `_` = none
+-/
 namespace Driver.C04
-open AcraModel
+open AcraModel AcraModel.Envelope AcraModel.Proxy
+
+def C := Driver.C01.C
+
+def splitList (s : String) (sep : String) : List String := if s = "_" then [] else s.splitOn sep
+
+def parseSetting (s : String) : Option ColSetting :=
+  match s.splitOn "." with
+  | [k, d, r] => do
+    let kind ← Driver.C01.parseKind k
+    let dtype ← (match d with | "none" => some DType.none | "bytes" => some .bytes | "str" => some .str | _ => none)
+    pure { kind := kind, dtype := dtype, reenc := r == "1" }
+  | _ => none
+
+def parseTable (s : String) : Option Table :=
+  match s.splitOn ":" with
+  | [name, cols, enc] => do
+    let e ← (splitList enc "+").mapM fun x =>
+      match x.splitOn "=" with
+      | [c, st] => (parseSetting st).map fun v => (c, v)
+      | _ => none
+    pure { name := name, columns := splitList cols ",", encrypted := e }
+  | _ => none
+
+def parseSchema (s : String) : Option Schema := (splitList s "/").mapM parseTable
+
+def parseCell (s : String) : Option Cell :=
+  match s.toList with
+  | 'L' :: r => (ofHex (String.ofList r)).map .lit
+  | 'N' :: r => (ofHex (String.ofList r)).map .num
+  | 'P' :: r => (String.ofList r).toNat?.map .param
+  | ['Z'] => some .null
+  | 'O' :: r => (String.ofList r).toNat?.map .other
+  | _ => none
+
+def showCell : Cell → String
+  | .lit b => "L" ++ hexOf b
+  | .num b => "N" ++ hexOf b
+  | .param i => s!"P{i}"
+  | .null => "Z"
+  | .other t => s!"O{t}"
+
+def parseTarget (s : String) : Option Target :=
+  if s = "*" then some .star else if s = "?" then some .expr else
+  match s.splitOn "." with
+  | [c] => some (.col c)
+  | [q, "*"] => some (.qstar q)
+  | [q, c] => some (.qcol q c)
+  | _ => none
+
+def parseTargets (s : String) : Option (List Target) := (splitList s ",").mapM parseTarget
+
+def showTarget : Target → String
+  | .star => "*"
+  | .qstar q => q ++ ".*"
+  | .col c => c
+  | .qcol q c => q ++ "." ++ c
+  | .expr => "?"
+
+def showList (l : List String) (sep : String) : String := if l.isEmpty then "_" else sep.intercalate l
+
+def parseAlias (s : String) : Option Name := if s = "_" then none else some s
+
+def parseStmt (s : String) : Option Stmt :=
+  match s.splitOn ":" with
+  | ["I", t, cols, rows, ret] => do
+    let rs ← (splitList rows ";").mapM fun r => (splitList r ",").mapM parseCell
+    pure (.insert { table := t, cols := splitList cols ",", rows := rs, returning := ← parseTargets ret })
+  | ["U", t, al, sets, ret] => do
+    let ss ← (splitList sets ",").mapM fun x =>
+      match x.splitOn "=" with
+      | [c, v] => (parseCell v).map fun v => (c, v)
+      | _ => none
+    pure (.update { table := t, alias := parseAlias al, sets := ss, returning := ← parseTargets ret })
+  | ["S", t, al, items] => do
+    pure (.select { table := t, alias := parseAlias al, items := ← parseTargets items })
+  | ["X"] => some (.other 0)
+  | _ => none
+
+def showStmt : Stmt → String
+  | .insert i =>
+    "I:" ++ i.table ++ ":" ++ showList i.cols "," ++ ":" ++ showList (i.rows.map fun r => showList (r.map showCell) ",") ";" ++ ":" ++ showList (i.returning.map showTarget) ","
+  | .update u =>
+    "U:" ++ u.table ++ ":" ++ u.alias.getD "_" ++ ":" ++ showList (u.sets.map fun (c, v) => c ++ "=" ++ showCell v) "," ++ ":" ++ showList (u.returning.map showTarget) ","
+  | .select s => "S:" ++ s.table ++ ":" ++ s.alias.getD "_" ++ ":" ++ showList (s.items.map showTarget) ","
+  | .other _ => "X"
+
+def parseFmt (c : Char) : Option Fmt := if c = 't' then some .text else if c = 'b' then some .binary else none
+
+def parseParam (s : String) : Option Param :=
+  match s.toList with
+  | f :: 'Z' :: [] => (parseFmt f).map fun f => (f, none)
+  | f :: r => do pure (← parseFmt f, some (← ofHex (String.ofList r)))
+  | _ => none
+
+def parseParams (s : String) : Option (List Param) := (splitList s ",").mapM parseParam
+
+def showOpt : Option Bytes → String
+  | none => "Z"
+  | some b => "V" ++ hexOf b
+
+def parseOptVal (s : String) : Option (Option Bytes) :=
+  match s.toList with
+  | ['Z'] => some none
+  | 'V' :: r => (ofHex (String.ofList r)).map some
+  | _ => none
+
+def showSettings (l : List (Option ColSetting)) : String :=
+  showList (l.map fun
+    | none => "-"
+    | some s => (match s.kind with | .struct => "struct" | .block => "block") ++ "." ++
+        (match s.dtype with | .none => "none" | .bytes => "bytes" | .str => "str")) ","
+
+/-- events of the protocol-state ops: `q<id>` simple query, `Q<id>` censored query, `p<name>=<id>` Parse,
+`b<portal>=<stmt>` Bind, `e<portal>` Execute, `s` Sync, `o` other; database side: `D` DataRow, `C` done,
+`E` error, `Z` ready, `O` other -/
+def showSrc : Src Nat Nat → String
+  | .simple s => s!"simple{s}"
+  | .extended s b => s!"ext{s}.{b}"
+
+def showQueue (l : List (Entry (Src Nat Nat))) : String :=
+  showList (l.map fun | .sync => "sync" | .query q => showSrc q) ","
+
+def nm (s : String) : String := if s = "~" then "" else s
+
+def pendingRun : PState Nat Nat → Nat → List String → List String → Option (List String)
+  | _, _, [], acc => some acc.reverse
+  | st, n, e :: es, acc =>
+    match e.toList with
+    | 'q' :: r => do
+      let (st', _) ← clStep st (.query (← (String.ofList r).toNat?) false)
+      pendingRun st' n es (showQueue st'.pending :: acc)
+    | 'Q' :: r => do
+      let (st', _) ← clStep st (.query (← (String.ofList r).toNat?) true)
+      pendingRun st' n es (showQueue st'.pending :: acc)
+    | 'p' :: r =>
+      match (String.ofList r).splitOn "=" with
+      | [name, id] => do
+        let (st', _) ← clStep st (.parse (nm name) (← id.toNat?) false)
+        pendingRun st' n es (showQueue st'.pending :: acc)
+      | _ => none
+    | 'b' :: r =>
+      match (String.ofList r).splitOn "=" with
+      | [portal, stmt] =>
+        match clStep st (.bind (nm portal) (nm stmt) n) with
+        | some (st', _) => pendingRun st' (n + 1) es (showQueue st'.pending :: acc)
+        | none => some (("closed" :: acc).reverse)
+      | _ => none
+    | 'e' :: r =>
+      match clStep st (.execute (nm (String.ofList r))) with
+      | some (st', _) => pendingRun st' n es (showQueue st'.pending :: acc)
+      | none => some (("closed" :: acc).reverse)
+    | ['s'] => do
+      let (st', _) ← clStep st .sync
+      pendingRun st' n es (showQueue st'.pending :: acc)
+    | ['o'] => pendingRun st n es (showQueue st.pending :: acc)
+    | ['D'] =>
+      let used := match rowEntry st.pending with | some q => "row:" ++ showSrc q | none => "row:none"
+      pendingRun st n es (used :: acc)
+    | ['C'] => let st' := { st with pending := dbStep st.pending .done }; pendingRun st' n es (showQueue st'.pending :: acc)
+    | ['E'] => let st' := { st with pending := dbStep st.pending .error }; pendingRun st' n es (showQueue st'.pending :: acc)
+    | ['Z'] => let st' := { st with pending := dbStep st.pending .ready }; pendingRun st' n es (showQueue st'.pending :: acc)
+    | ['O'] => pendingRun st n es (showQueue st.pending :: acc)
+    | _ => none
 
 def handle (op : String) (args : List String) : Option String :=
   match op, args with
+  -- stmt schema [kv×4] stmt rnd  → the statement as forwarded
+  | "stmt", [_, sch, pub, privs, sym, syms, st, rnd] => do
+      let kv ← Driver.C01.parseKV pub privs sym syms
+      pure ("ok " ++ showStmt (forwardStmt C kv (← parseSchema sch) (← parseStmt st) (← ofHex rnd)))
+  -- mystmt schema [kv×4] stmt rnd → the statement as the MySQL query encryptor forwards it (literals by value)
+  | "mystmt", [sch, pub, privs, sym, syms, st, rnd] => do
+      let kv ← Driver.C01.parseKV pub privs sym syms
+      pure ("ok " ++ showStmt (forwardStmtMy C kv (← parseSchema sch) (← parseStmt st) (← ofHex rnd)))
+  -- bind schema [kv×4] stmt params order rnd → same | changed <values>
+  | "bind", [sch, pub, privs, sym, syms, st, ps, order, rnd] => do
+      let kv ← Driver.C01.parseKV pub privs sym syms
+      let ord ← (splitList order ",").mapM (·.toNat?)
+      -- the Parse of the statement came first: its protected literals have already drawn randomness
+      let schema ← parseSchema sch
+      let stmt ← parseStmt st
+      let rnd' := (xfStmt (encCell C kv) schema stmt (← ofHex rnd)).2
+      let params ← parseParams ps
+      match forwardBind C kv schema stmt params ord rnd' with
+      | .same => pure ("vals " ++ showList (params.map fun p => showOpt p.2) ",")
+      | .changed vs => pure ("vals " ++ showList (vs.map showOpt) ",")
+  -- plan schema stmt nvalues → which parameters are transformed
+  | "plan", [sch, st, n] => do
+      match bindPlan (← parseSchema sch) (← parseStmt st) (← n.toNat?) with
+      | .untouched => pure "changed _"
+      | .error => pure "changed _"
+      | .plan m =>
+        let idx := (List.range (← n.toNat?)).filter fun i => m.any (·.1 == i)
+        pure ("changed " ++ showList (idx.map toString) ",")
+  -- settings schema stmt → per result column
+  | "settings", [sch, st] => do pure (showSettings (resultSettings (← parseSchema sch) (← parseStmt st)))
+  -- row schema [kv×4] stmt fmts cols → the DataRow as delivered
+  | "row", [sch, pub, privs, sym, syms, st, fmts, cols] => do
+      let kv ← Driver.C01.parseKV pub privs sym syms
+      let fs ← (splitList fmts ",").mapM fun x => match x.toList with | [c] => parseFmt c | _ => none
+      let cs ← (splitList cols ",").mapM parseOptVal
+      let pending ← (if st = "none" then some none else (parseStmt st).map some)
+      pure ((deliverRow C kv (← parseSchema sch) pending (fmtOf fs) cs).render fun vs => showList (vs.map showOpt) ",")
+  -- value-level ops
+  | "write", [pub, privs, sym, syms, setting, d, rnd] => do
+      let kv ← Driver.C01.parseKV pub privs sym syms
+      pure (Driver.C01.outHex (writeChain C kv (← parseSetting setting) (← ofHex d) (← ofHex rnd)))
+  | "read", [pub, privs, sym, syms, setting, fmt, d] => do
+      let kv ← Driver.C01.parseKV pub privs sym syms
+      let s ← (if setting = "none" then some none else (parseSetting setting).map some)
+      let f ← (match fmt.toList with | [c] => parseFmt c | _ => none)
+      pure (Driver.C01.outHex (readChain C kv s f (← ofHex d)))
+  | "escaped", [d] => do
+      match decodeEscaped (← ofHex d) with
+      | .ok b => pure ("ok " ++ hexOf b)
+      | .hexErr => pure "hexerr"
+      | .octalErr => pure "octalerr"
+  | "utf8", [d] => do pure (toString (utf8Valid (← ofHex d)))
+  -- pending <events joined by ,> → queue after each event / entry used per DataRow, joined by `|`
+  | "pending", [evs] => do
+      let out ← pendingRun {} 0 (splitList evs ",") []
+      pure ("|".intercalate out)
   | _, _ => none
 
 end Driver.C04
